@@ -18,6 +18,8 @@ seed = int(sys.argv[3]) if len(sys.argv) > 3 else 777
 subprocess.run([os.path.join(VERIF, "setup.sh")], check=True, stdout=subprocess.DEVNULL)
 binary = os.path.join(VERIF, ".build", "sim-setup.test")
 plan = plans.plan_for(prop, "quick")
+if os.environ.get("SELFTEST_PROFILES"):
+    plan["profiles"] = os.environ["SELFTEST_PROFILES"].split(",")
 work = os.path.join(VERIF, ".work", "selftest-%s" % prop)
 os.makedirs(work, exist_ok=True)
 procs = []
